@@ -1118,6 +1118,175 @@ func genSelects(repo, out string) {
 	g.finish(out)
 }
 
+// ---------------------------------------------------------------- Exits / lock-protected flags
+
+// callNames lists the selector names of the calls made directly by the statements of a block
+// (not descending into nested blocks of if/for, but including their conditions).
+func callNames(stmts []ast.Stmt) []string {
+	var out []string
+	add := func(n ast.Node) {
+		ast.Inspect(n, func(m ast.Node) bool {
+			switch x := m.(type) {
+			case *ast.BlockStmt, *ast.FuncLit:
+				_ = x
+				return false
+			case *ast.CallExpr:
+				switch f := x.Fun.(type) {
+				case *ast.SelectorExpr:
+					out = append(out, exprStr(f.X)+"."+f.Sel.Name)
+				case *ast.Ident:
+					out = append(out, f.Name)
+				}
+			}
+			return true
+		})
+	}
+	for _, st := range stmts {
+		switch x := st.(type) {
+		case *ast.IfStmt:
+			if x.Init != nil {
+				add(x.Init)
+			}
+			add(x.Cond)
+		case *ast.ForStmt, *ast.RangeStmt, *ast.SwitchStmt, *ast.TypeSwitchStmt, *ast.SelectStmt, *ast.BlockStmt:
+		default:
+			add(st)
+		}
+	}
+	return out
+}
+
+func genExits(repo, out string) {
+	g := newGen("Exits")
+	fmt.Fprintf(&g.buf, "structure Exit where\n  fn : String\n  ord : Nat\n  calls : List String\n  deriving Repr, DecidableEq\n\n")
+	f := parse(filepath.Join(repo, "rpc.go"))
+	var exits []string
+	for _, name := range []string{"establishRegion", "reestablishRegion"} {
+		fd := findMethod(f, "client", name)
+		if fd == nil {
+			g.fail(name + " missing")
+			continue
+		}
+		ord := 0
+		var walk func(stmts []ast.Stmt)
+		walk = func(stmts []ast.Stmt) {
+			for i, st := range stmts {
+				switch x := st.(type) {
+				case *ast.ReturnStmt:
+					exits = append(exits, fmt.Sprintf("{ fn := %s, ord := %d, calls := %s }", leanStr(name), ord, leanList(callNames(stmts[:i]))))
+					ord++
+				case *ast.IfStmt:
+					var w func(is *ast.IfStmt)
+					w = func(is *ast.IfStmt) {
+						walk(is.Body.List)
+						switch e := is.Else.(type) {
+						case *ast.BlockStmt:
+							walk(e.List)
+						case *ast.IfStmt:
+							w(e)
+						}
+					}
+					w(x)
+				case *ast.ForStmt:
+					walk(x.Body.List)
+				case *ast.BlockStmt:
+					walk(x.List)
+				case *ast.SelectStmt:
+					for _, c := range x.Body.List {
+						walk(c.(*ast.CommClause).Body)
+					}
+				case *ast.SwitchStmt:
+					for _, c := range x.Body.List {
+						walk(c.(*ast.CaseClause).Body)
+					}
+				}
+			}
+		}
+		walk(fd.Body.List)
+	}
+	g.def("exits", "List Exit", "[\n  "+strings.Join(exits, ",\n  ")+"]")
+	// establishRegion: `if client == nil { return }` right after the clients.put assignment
+	nilCheck := false
+	if fd := findMethod(f, "client", "establishRegion"); fd != nil {
+		ast.Inspect(fd.Body, func(n ast.Node) bool {
+			bs, ok := n.(*ast.BlockStmt)
+			if !ok {
+				return true
+			}
+			for i, st := range bs.List {
+				as, ok := st.(*ast.AssignStmt)
+				if !ok || len(as.Rhs) != 1 || i+1 >= len(bs.List) {
+					continue
+				}
+				if c, ok := as.Rhs[0].(*ast.CallExpr); ok && exprStr(c.Fun) == "c.clients.put" {
+					if is, ok := bs.List[i+1].(*ast.IfStmt); ok && exprStr(is.Cond) == exprStr(as.Lhs[0])+" == nil" &&
+						len(is.Body.List) > 0 {
+						if _, ok := is.Body.List[len(is.Body.List)-1].(*ast.ReturnStmt); ok {
+							nilCheck = true
+						}
+					}
+				}
+			}
+			return true
+		})
+	}
+	g.def("establishReturnsWhenPutRefuses", "Bool", fmt.Sprint(nilCheck))
+	// caches.go: put checks `closed` first under the lock and returns nil; closeAll sets it under the lock
+	fc := parse(filepath.Join(repo, "caches.go"))
+	putOk, closeOk := false, false
+	if fd := findMethod(fc, "clientRegionCache", "put"); fd != nil && len(fd.Body.List) >= 2 {
+		if es, ok := fd.Body.List[0].(*ast.ExprStmt); ok && exprStr(es.X) == "rcc.m.Lock()" {
+			if is, ok := fd.Body.List[1].(*ast.IfStmt); ok && exprStr(is.Cond) == "rcc.closed" && len(is.Body.List) == 2 {
+				u, ok1 := is.Body.List[0].(*ast.ExprStmt)
+				r, ok2 := is.Body.List[1].(*ast.ReturnStmt)
+				if ok1 && ok2 && exprStr(u.X) == "rcc.m.Unlock()" && len(r.Results) == 1 && exprStr(r.Results[0]) == "nil" {
+					putOk = true
+				}
+			}
+		}
+	}
+	if fd := findMethod(fc, "clientRegionCache", "closeAll"); fd != nil {
+		locked := false
+		for _, st := range fd.Body.List {
+			if es, ok := st.(*ast.ExprStmt); ok {
+				switch exprStr(es.X) {
+				case "rcc.m.Lock()":
+					locked = true
+				case "rcc.m.Unlock()":
+					locked = false
+				}
+			}
+			if as, ok := st.(*ast.AssignStmt); ok && locked && len(as.Lhs) == 1 && exprStr(as.Lhs[0]) == "rcc.closed" && exprStr(as.Rhs[0]) == "true" {
+				closeOk = true
+			}
+		}
+	}
+	g.def("putRefusesWhenClosedUnderLock", "Bool", fmt.Sprint(putOk))
+	g.def("closeAllSetsClosedUnderLock", "Bool", fmt.Sprint(closeOk))
+	// region/new.go: the dialer is only called inside dialOnce.Do
+	fn := parse(filepath.Join(repo, "region", "new.go"))
+	dialInOnce, dialOutside := false, false
+	if fd := findMethod(fn, "client", "Dial"); fd != nil {
+		ast.Inspect(fd.Body, func(n ast.Node) bool {
+			if c, ok := n.(*ast.CallExpr); ok && exprStr(c.Fun) == "c.dialOnce.Do" {
+				ast.Inspect(c, func(m ast.Node) bool {
+					if cc, ok := m.(*ast.CallExpr); ok && exprStr(cc.Fun) == "c.dialer" {
+						dialInOnce = true
+					}
+					return true
+				})
+				return false
+			}
+			if c, ok := n.(*ast.CallExpr); ok && exprStr(c.Fun) == "c.dialer" {
+				dialOutside = true
+			}
+			return true
+		})
+	}
+	g.def("dialerOnlyInsideOnce", "Bool", fmt.Sprint(dialInOnce && !dialOutside))
+	g.finish(out)
+}
+
 func main() {
 	if len(os.Args) != 3 {
 		fmt.Fprintln(os.Stderr, "usage: extract <repo> <Gen dir>")
@@ -1134,4 +1303,5 @@ func main() {
 	genCell(repo, out)
 	genRetryLoop(repo, out)
 	genSelects(repo, out)
+	genExits(repo, out)
 }
